@@ -277,15 +277,18 @@ impl System {
             .ok_or(IggyError::ResourceNotFound(user_id.to_string()))?;
         self.permissioner
             .delete_permissions_for_user(existing_user_id);
-        let mut client_manager = self.client_manager.write().await;
-        client_manager
-            .delete_clients_for_user(existing_user_id)
-            .await
-            .with_error_context(|error| {
-                format!(
-                    "{COMPONENT} (error: {error}) - failed to delete clients for user with ID: {existing_user_id}"
-                )
-            })?;
+        // The user's connections go the way a closed connection goes: out of the client manager and out
+        // of the consumer groups they had joined (a member without a client breaks the group's deletion).
+        let mut client_ids = Vec::new();
+        for client in self.client_manager.read().await.get_clients() {
+            let client = client.read().await;
+            if client.user_id == Some(existing_user_id) {
+                client_ids.push(client.session.client_id);
+            }
+        }
+        for client_id in client_ids {
+            self.delete_client(client_id).await;
+        }
         info!("Deleted user: {existing_username} with ID: {user_id}.");
         self.metrics.decrement_users(1);
         Ok(user)
